@@ -217,3 +217,27 @@ def gen_return_twice(rng: random.Random) -> list:
         prog += [["set", [["R", 1], rng.randrange(ln)]], ["set", [["R", 2], 77]], ["store", [["R", 2], [a, ["R", 1]]]]]
     prog.append(["ret_arr", [a]])
     return prog
+
+
+def gen_big_accumulate(rng: random.Random) -> list:
+    """Values that GROW by arithmetic (immediates are 32-bit, registers of the simulator are not): a register doubled 30-120 times
+    (now and then another accumulated register added or subtracted), then addm / subm of it with small and large moduli, both
+    operand orders, and the results returned."""
+    start = rng.choice([1, 3, 7, 933, 2**31 - 1, -(2**31), rng.randrange(-2**31, 2**31)]) or 1
+    prog = [["set", [["R", 0], start]], ["set", [["R", 7], rng.choice([1, 5, 2**31 - 1, -3])]]]
+    for _ in range(rng.randrange(30, 121)):
+        r = rng.random()
+        if r < 0.8:
+            prog.append(["add", [["R", 0], ["R", 0], ["R", 0]]])
+        elif r < 0.9:
+            prog.append(["add", [["R", 7], ["R", 7], ["R", 0]]])
+        else:
+            prog.append(["sub", [["R", 0], ["R", 0], ["R", 7]]])
+    mod = rng.choice([2, 3, 7, 10, 1000, 65537, 2**31 - 1, rng.randrange(2, 2**31)])
+    prog += [["set", [["R", 1], mod]], ["set", [["R", 2], rng.choice([0, 1, 5, 2**31 - 1, -7])]],
+             ["addm", [["R", 3], ["R", 0], ["R", 2], ["R", 1]]], ["subm", [["R", 4], ["R", 2], ["R", 0], ["R", 1]]],
+             ["subm", [["R", 5], ["R", 0], ["R", 2], ["R", 1]]], ["addm", [["R", 6], ["R", 0], ["R", 7], ["R", 1]]],
+             ["sub", [["R", 8], ["R", 7], ["R", 0]]], ["add", [["R", 9], ["R", 0], ["R", 2]]]]
+    for i in (3, 4, 5, 6):
+        prog.append(["ret_reg", [["R", i]]])
+    return prog
